@@ -304,10 +304,12 @@ def int_case(name, args, acc):
     acc.count("int_cases")
     nviol = pre(args)
     acc.seen("int_classes", (name, obs[0][0], min(nviol, 2)))
+    t = tag(args)
+    if t:
+        acc.seen("int_tags", (keyname, t))
     cls, sig = signature(obs)
     if cls is None:
         return None
-    t = tag(args)
     desc = "%s%s -> %s" % (name, short(list(args), 40),
                            "; ".join("%s: %s" % (n, _fmt(o)) for (n, _), o in zip(backends(), obs)))
     if nviol == 0 or (nviol == 1 and "exception" in cls):
@@ -330,12 +332,46 @@ def _fmt(o):
     return s
 
 
+# expression templates for the stand-alone reproduction scripts (a, b, c = operands; w = wrapper for the
+# right-hand operands: the class itself for form "I", identity for form "i")
+EXPR = {
+    "add": "K(a) + w(b)", "sub": "K(a) - w(b)", "mul": "K(a) * w(b)", "floordiv": "K(a) // w(b)",
+    "mod": "K(a) % w(b)", "and": "K(a) & w(b)", "or": "K(a) | w(b)", "eq": "K(a) == w(b)", "ne": "K(a) != w(b)",
+    "lt": "K(a) < w(b)", "le": "K(a) <= w(b)", "gt": "K(a) > w(b)", "ge": "K(a) >= w(b)",
+    "iadd": "operator.iadd(K(a), w(b))", "isub": "operator.isub(K(a), w(b))", "imul": "operator.imul(K(a), w(b))",
+    "imod": "operator.imod(K(a), w(b))", "gcd": "K(a).gcd(w(b))", "lcm": "K(a).lcm(w(b))",
+    "multiply_accumulate": "K(a).multiply_accumulate(w(b), w(b))",
+    "multiply_accumulate3": "K(a).multiply_accumulate(3, w(b))", "set": "K(a).set(w(b))",
+    "inverse": "K(a).inverse(w(b))", "inplace_inverse": "K(a).inplace_inverse(w(b))",
+    "jacobi_symbol": "K.jacobi_symbol(w(a), w(b))", "fail_if_divisible_by": "K(a).fail_if_divisible_by(w(b))",
+    "abs": "abs(K(a))", "sqrt": "K(a).sqrt()", "size_in_bits": "K(a).size_in_bits()",
+    "size_in_bytes": "K(a).size_in_bytes()", "is_perfect_square": "K(a).is_perfect_square()",
+    "to_bytes0": "K(a).to_bytes()", "int": "int(K(a))", "str": "str(K(a))", "bool": "bool(K(a))",
+    "rshift": "K(a) >> w(b)", "irshift": "operator.irshift(K(a), w(b))", "lshift": "K(a) << w(b)",
+    "ilshift": "operator.ilshift(K(a), w(b))", "get_bit": "K(a).get_bit(w(b))",
+    "to_bytes": "K(a).to_bytes(b, c)", "from_bytes": "K.from_bytes(a, b)",
+    "pow2": "pow(K(a), w(b))", "ipow2": "K(a).inplace_pow(w(b))", "pow3": "pow(K(a), w(b), w(c))",
+    "ipow3": "K(a).inplace_pow(w(b), w(c))", "_mult_modulo_bytes": "K._mult_modulo_bytes(w(a), w(b), w(c))",
+    "sqrt_mod": "K(a).sqrt(w(b))", "_tonelli_shanks": "K._tonelli_shanks(K(a), K(b))",
+}
+
+
 def _script(name, args):
-    return ("# stand-alone reproduction (needs only pycryptodome); operation %r operands %r\n"
+    expr = EXPR.get(name)
+    if expr is None:
+        return None
+    form = args[-1] if args and args[-1] in ("I", "i") else "I"
+    ops = list(args[:-1]) if args and args[-1] in ("I", "i") else list(args)
+    ops = (ops + [None, None, None])[:3]
+    return ("# stand-alone reproduction (needs only pycryptodome)\nimport operator\n"
             "from Crypto.Math._IntegerGMP import IntegerGMP\nfrom Crypto.Math._IntegerCustom import IntegerCustom\n"
             "from Crypto.Math._IntegerNative import IntegerNative\n"
-            "# see /verif/mc/props/_c16_int.py OPS[%r] for the exact call; operands:\nargs = %r\n"
-            % (name, args, name, args))
+            "a, b, c = %r, %r, %r\n"
+            "for K in (IntegerGMP, IntegerCustom, IntegerNative):\n"
+            "    w = %s\n"
+            "    try:\n        r = %s\n        print(K.__name__, type(r).__name__, r)\n"
+            "    except Exception as e:\n        print(K.__name__, 'raises', type(e).__name__, e)\n"
+            % (ops[0], ops[1], ops[2], "K" if form == "I" else "(lambda v: v)", expr))
 
 
 # ---------------------------------------------------------------------------
@@ -419,7 +455,7 @@ def _int_shard(sh, quick, acc):
                     # cost bound: huge exponent x huge modulus only against the small moduli
                     acc.count("int_pow_skipped_cost")
                     continue
-                forms = ("I",) if e.bit_length() > 130 else ("I", "i")
+                forms = ("I",) if e.bit_length() > (65 if quick else 130) else ("I", "i")
                 for form in forms:
                     int_case("pow3", (b, e, m, form), acc)
                     if form == "I" and e.bit_length() <= 130:
@@ -427,12 +463,12 @@ def _int_shard(sh, quick, acc):
     elif kind == "mmb":
         a = V[sh[1]]
         M = moduli(quick)
-        for b in V:
+        for b in (V if not quick else [v for v in V if abs(v) < 4 or abs(v).bit_length() in (32, 33, 64, 65, 1024, 1025)]):
             for m in M:
                 for form in ("I", "i"):
                     int_case("_mult_modulo_bytes", (a, b, m, form), acc)
     elif kind == "sqrt":
-        mods = [p for p in SMALL_PRIMES if p < (100 if quick else 200)] + [9, 15, 21, 25, 4, 8, 1, 0, -7]
+        mods = [p for p in SMALL_PRIMES if p < (60 if quick else 200)] + [9, 15, 21, 25, 4, 8, 1, 0, -7]
         for p in mods[sh[1]::sh[2]]:
             for r in range(-2, p + 2):
                 for form in ("I", "i"):
